@@ -768,6 +768,7 @@ class Parser:
         positionals = ast.Tuple(
             elts=[ast.Constant(value=param.string, **param.loc()) for param in b], ctx=Load, **locs
         )
+        self._tokenizer._call_macro = False
         return xonsh_call(
             "__xonsh__.call_macro",
             a,
